@@ -1172,10 +1172,13 @@ class CParser:
     # BNF: struct_declarator : declarator? ':' constant_expression
     #                        | declarator (':' constant_expression)?
     def _parse_struct_declarator(self) -> "_DeclInfo":
-        if self._accept("COLON"):
+        colon_tok = self._accept("COLON")
+        if colon_tok:
             bitsize = self._parse_constant_expression()
             return {
-                "decl": c_ast.TypeDecl(None, None, None, None),
+                "decl": c_ast.TypeDecl(
+                    None, None, None, None, self._tok_coord(colon_tok)
+                ),
                 "init": None,
                 "bitsize": bitsize,
             }
